@@ -38,19 +38,20 @@ def handle (j : Json) : Option Json := do
     let vals ← fieldRats? j "values"
     let pt ← fieldRats? j "pt"
     let wantDv ← fieldBool? j "dv"
+    let fix ← fieldBool? j "akimaFix"
     let ds : List (Nat × (Nat → Rat)) := grids.map (fun l => (l.length, gridFn l))
     let shape := grids.map List.length
     let tbl := tblOf shape vals.toArray
-    let kern : Kernel Rat := m.kernel akimaEps
+    let kern : Kernel Rat := m.kernel fix akimaEps
     let idxs := bracketAll ds pt
     let v := evalND kern ds tbl pt
-    let dx := (List.range ds.length).map (fun k => dualDx m akimaEps ds tbl pt k)
+    let dx := (List.range ds.length).map (fun k => dualDx m fix akimaEps ds tbl pt k)
     let dxc : Json := match codeDx? m with
       | some kdx => jRats (gradIdx kern kdx ds idxs tbl pt)
       | none => Json.null
     let w : Json := Json.arr ((ds.zip (idxs.zip pt)).map (fun (d, i, x) =>
       jRats (trainWeights kern d.1 d.2 i x))).toArray
-    let dv : Json := if wantDv then jRats ((allIdx shape).map (fun e => dualDv m akimaEps ds tbl pt e))
+    let dv : Json := if wantDv then jRats ((allIdx shape).map (fun e => dualDv m fix akimaEps ds tbl pt e))
       else Json.null
     pure (jObj [("v", jRat v), ("dx", jRats dx), ("dxc", dxc), ("w", w), ("dv", dv),
                 ("ws", jRat (wsum kern ds idxs tbl pt))])
